@@ -798,7 +798,23 @@ NextPin:
 		}
 	}
 
-	err = sdb.updateHash(tx, nodeID, hashUpdate)
+	if newEdge {
+		// the node may already have children, their hashes are part of
+		// the hash of the new edge
+		childEdges, err := sdb.edges(tx, "SELECT * FROM edges WHERE up=?", nodeID)
+		if err != nil {
+			rollback()
+			return err
+		}
+		for _, c := range childEdges {
+			hashUpdate ^= c.Hash
+		}
+	}
+
+	// edge points only change the hash of this edge (not of other edges
+	// of the same node) and of the edges above it
+	cache := map[string]uint32{edge.ID: edge.Hash ^ hashUpdate}
+	err = sdb.updateHashCache(tx, parentID, hashUpdate, cache)
 	if err != nil {
 		rollback()
 		return fmt.Errorf("Error updating upstream hash: %v", err)
@@ -815,6 +831,12 @@ NextPin:
 func (sdb *DbSqlite) updateHash(tx *sql.Tx, id string, hashUpdate uint32) error {
 	// key in edgeCache is up-down
 	cache := make(map[string]uint32)
+	return sdb.updateHashCache(tx, id, hashUpdate, cache)
+}
+
+// updateHashCache applies hashUpdate to all edges pointing to id and above, on
+// top of the hash values already in cache, and writes the cache to the db
+func (sdb *DbSqlite) updateHashCache(tx *sql.Tx, id string, hashUpdate uint32, cache map[string]uint32) error {
 	err := sdb.updateHashHelper(tx, id, hashUpdate, cache)
 	if err != nil {
 		return err
